@@ -19,6 +19,8 @@ import (
 	"net/http/httptest"
 	"net/url"
 	"os"
+	"runtime"
+	"runtime/debug"
 	"strings"
 	"time"
 
@@ -116,7 +118,15 @@ func (d *drv) call(text string, mustErr bool, fn func(ctx context.Context) outco
 		o = outcome{hang: true, code: "NO-RETURN"}
 	}
 	if o.hang {
-		d.fail("hang: the call did not finish within its deadline ("+o.code+")", text)
+		// what the server's goroutines were doing at that moment (blocked, or merely slow?)
+		_, stacks := brGoroutines()
+		var st []string
+		for sig, g := range stacks {
+			if d.base[sig] == 0 {
+				st = append(st, firstLines(g, 16))
+			}
+		}
+		d.fail("hang: the call did not finish within its deadline ("+o.code+")", text+"\nserver goroutines at that moment:\n"+strings.Join(st, "\n--\n"))
 	}
 	for _, p := range mon.takePanics() {
 		d.fail("panic in "+p.where+": "+p.val, text+"\n"+firstLines(p.stack, 24))
@@ -129,7 +139,12 @@ func (d *drv) call(text string, mustErr bool, fn func(ctx context.Context) outco
 }
 
 // rest checks quiescence and adds the observation as a Coq case
-func (d *drv) rest(what string) {
+func (d *drv) rest(what string) { d.restOpt(what, true) }
+
+// after a single scenario: same check, a Coq case only when something was left
+func (d *drv) restLight(what string) { d.restOpt(what, false) }
+
+func (d *drv) restOpt(what string, coq bool) {
 	q := quiesce(d.base, d.fxs()...)
 	for _, det := range q.detail {
 		kind := det
@@ -147,8 +162,12 @@ func (d *drv) rest(what string) {
 			}
 		}
 	}
+	runtime.GC()
 	d.rep.Count("quiescence-checks")
 	phase("rest: " + what)
+	if !coq && len(q.detail) == 0 {
+		return
+	}
 	d.addCase(fmt.Sprintf("AQuiesce %d %d %d %d", q.goroutines, q.fds, q.reserved, q.stray),
 		fmt.Sprintf("quiescence after %s: goroutines=%d fds=%d reserved=%d stray=%d", what, q.goroutines, q.fds, q.reserved, q.stray), false)
 }
@@ -274,6 +293,8 @@ func (a *abortReader) Read(p []byte) (int, error) {
 
 func abuseDriver(seed uint64, n int, outV, outJSON string, args []string) {
 	log.SetOutput(io.Discard)
+	// no garbage collection between quiescence checks: a forgotten *os.File must not be closed by its
+	// finaliser before /proc/self/fd is read (the memory limit keeps the process bounded)
 	d := &drv{r: &Rng{S: seed}, rep: NewReport("abuse", seed)}
 	d.rep.Rule = "hostile requests to every endpoint: ByteStream Read/Write/QueryWriteStatus (resource names of all shapes, offsets/limits incl. int64 extremes, message sequences with early aborts, half-close without messages, changed names, zstd garbage/truncated/trailing), CAS FindMissingBlobs/BatchUpdateBlobs/BatchReadBlobs/GetTree/SpliceBlob/SplitBlob (nil and malformed digests, nil elements in-process, stored ill-formed Directories, missing/overflowing/truncated chunks), ActionCache Get/Update (optional fields absent at every depth, nil elements in-process, stored garbage), Capabilities, Asset FetchBlob/FetchDirectory (hostile URIs and qualifiers against a local upstream), HTTP GET/HEAD/PUT and other methods (URL shapes, X-Digest-SizeBytes garbage, Content-Encoding variants, missing/wrong Content-Length, aborted bodies, failing response writers, JSON bodies), and byte-level mutation of the on-disk files of stored blobs read through every read path; both storage modes. Non-trivial = request answered without an error status; distinct = distinct request texts among the Coq cases"
 	d.fz, d.fu = newFx("zstd"), newFx("uncompressed")
@@ -288,6 +309,8 @@ func abuseDriver(seed uint64, n int, outV, outJSON string, args []string) {
 	}
 	phase("populated")
 	d.warmup()
+	debug.SetGCPercent(-1)
+	debug.SetMemoryLimit(2 << 30)
 	time.Sleep(50 * time.Millisecond)
 	d.base, _ = brGoroutines()
 	if q := quiesce(d.base, d.fxs()...); len(q.detail) > 0 {
